@@ -106,6 +106,9 @@ pub struct Node {
     pub gen_at_victim: Vec<bool>,
     /// records this node signed earlier (other nodes may still hand them out)
     pub old_records: Vec<Vec<u8>>,
+    /// a datagram to or from this node was lost, or the node left a request unanswered: the node
+    /// under test may have given up on requests whose answers were still under way
+    pub lost_any: bool,
 }
 
 #[derive(Clone, Debug, Default)]
@@ -316,6 +319,7 @@ impl World {
             gen_created: Vec::new(),
             gen_at_victim: Vec::new(),
             old_records: Vec::new(),
+            lost_any: false,
         });
         self.nodes.len() - 1
     }
@@ -392,6 +396,9 @@ impl World {
         let f = self.faults.clone();
         if self.rng.below(1000) < f.drop {
             self.trace.push((now, WEv::Dropped { to_victim, node }));
+            if let Some(n) = self.nodes.get_mut(node) {
+                n.lost_any = true;
+            }
             return;
         }
         let copies = if self.rng.below(1000) < f.dup { 2 } else { 1 };
@@ -551,6 +558,7 @@ impl World {
         }
         self.nodes[i].requests_got.push((now, m.clone()));
         if !self.nodes[i].b.respond {
+            self.nodes[i].lost_any = true;
             return;
         }
         let id = m.id().to_vec();
@@ -603,6 +611,7 @@ impl World {
                 return;
             }
             if self.rng.below(1000) < self.nodes[i].b.lose_replies {
+                self.nodes[i].lost_any = true;
                 continue;
             }
             let (b, _nonce) = self.nodes[i].sim.message(&vid, &r, None);
